@@ -133,7 +133,7 @@ func rowanCoins(a *big.Int) sdk.Coins {
 
 func init() {
 	families["antetx"] = func(rng *Rng, n int, out *Out, replay string) {
-		const NV, NA = 20, 30
+		const NV, NA = 20, 60
 		c := newL2(NA, rng.U64())
 		c.out = out
 		pks := sifapp.CreateTestPubKeys(NA)
@@ -202,7 +202,7 @@ func init() {
 			if k < 12 {
 				depth = []int{1, 0, 2, 3}[k%4]
 			}
-			kind := rng.Intn(3)
+			kind := rng.Intn(4)
 			if k < 12 {
 				kind = k / 4
 			}
@@ -298,6 +298,33 @@ func init() {
 				} else {
 					refused++
 					out.Hist[fmt.Sprintf("tx.com.refused.depth%d", depth)]++
+				}
+			case 3: // a fresh account creates its validator and delegates to it in the same transaction
+				if nextFresh >= NA {
+					break
+				}
+				who := nextFresh
+				A := new(big.Int).Quo(new(big.Int).Mul(big.NewInt(66), c.stakeTotal(c.dctx())), big.NewInt(934)) // (a+b)/(total+a+b) = 6.6 %
+				a := new(big.Int).Quo(new(big.Int).Mul(A, big.NewInt(int64(1+rng.Intn(3)))), big.NewInt(4))
+				b := new(big.Int).Sub(A, a)
+				b.Add(b, big.NewInt(int64(rng.Intn(7)-3)))
+				if rng.Chance(1, 4) {
+					b = rng.Near(b)
+				}
+				mc := mkCreate(who, sdk.NewDecWithPrec(10, 2), a)
+				md := stakingtypes.NewMsgDelegate(c.addrs[who], valOf(who), sdk.NewCoin("rowan", sdk.NewIntFromBigInt(b)))
+				ns := []*node{wrapDepth(c.addrs[who], leaf(mc, bodyOfStaking(mc, valID)), rng.Intn(2)), wrapDepth(c.addrs[who], leaf(md, bodyOfStaking(md, valID)), depth)}
+				res := c.deliver(who, msgsOf(ns), sdk.Coins{})
+				if res.Code == 0 {
+					executed++
+					nextFresh++
+					ctx2 := c.dctx()
+					tv2, _ := c.app.StakingKeeper.GetValidator(ctx2, valOf(who))
+					out.Emit(fmt.Sprintf("chk c19.effpow.created tag=ante.deliver.power.created %s %s", tv2.Tokens.BigInt(), c.stakeTotal(ctx2)), "true",
+						fmt.Sprintf("tx.pow.created.ok.depth%d", depth), true)
+				} else {
+					refused++
+					out.Hist[fmt.Sprintf("tx.pow.created.refused.depth%d", depth)]++
 				}
 			default: // voting-power cap on executed delegations / redelegations
 				ctx := c.dctx()
